@@ -103,3 +103,18 @@ Theorem C11_source_const_transmute : forall a b,
   rejects const_transmute_guard (env2 "size_of_A" a "size_of_B" b) 0 = negb (a =? b) /\
   fails_by_panic const_transmute_guard = true.
 Proof. exact tie_const_transmute. Qed.
+
+(* the six flatten / unflatten bodies as they stand in src/sequence.rs now (coq/gen/GenSigs.v): by
+   value one size-checked const_transmute of `self`, by reference one transmute of the reference --
+   nothing is read, written, copied or dropped by the crate *)
+From GA Require Import SigTie.
+From GAGen Require Import GenSigs.
+Local Open Scope string_scope.
+Theorem C11_source_regroup_bodies :
+  transmute_of "GenericArray::Flatten::flatten" = Some ("const_transmute", "self") /\
+  transmute_of "GenericArray::Unflatten::unflatten" = Some ("const_transmute", "self") /\
+  transmute_of "&GenericArray::Flatten::flatten" = Some ("transmute", "self") /\
+  transmute_of "&mut GenericArray::Flatten::flatten" = Some ("transmute", "self") /\
+  transmute_of "&GenericArray::Unflatten::unflatten" = Some ("transmute", "self") /\
+  transmute_of "&mut GenericArray::Unflatten::unflatten" = Some ("transmute", "self").
+Proof. repeat split. Qed.
